@@ -79,7 +79,7 @@ func (f *fctx) instr(ins ssa.Instruction) {
 			f.oblige("S", fmt.Sprintf("S/makeslice-cap@%s", f.insID(ins)), T(SBool, "(>= %s %s)", c.S, n.S), ins.Pos(), "make: cap >= len")
 		}
 		s := f.vc.sortOf(ins.Type())
-		f.defVal(ins, Term{S: fmt.Sprintf("(mkseq %s ((as const (Array Int %s)) %s))", n.S, s.Elem.SMT(), ZeroOf(s.Elem).S), Sort: s})
+		f.defVal(ins, Term{S: fmt.Sprintf("(%s %s ((as const (Array Int %s)) %s))", mkseqOf(s), n.S, s.Elem.SMT(), ZeroOf(s.Elem).S), Sort: s})
 	case *ssa.MakeMap:
 		s := f.vc.sortOf(ins.Type())
 		key := "M$" + f.pfx + ins.Name()
@@ -162,7 +162,13 @@ func (f *fctx) overflow(ins ssa.Value, t Term, pos token.Pos) {
 	if !ok {
 		return
 	}
-	f.oblige("O", fmt.Sprintf("O/%s", f.pfx+ins.Name()), T(SBool, "(and (<= %s %s) (<= %s %s))", lo, t.S, t.S, hi), pos, "integer result within "+ins.Type().String())
+	goal := T(SBool, "(and (<= %s %s) (<= %s %s))", lo, t.S, t.S, hi)
+	desc := "integer result within " + ins.Type().String()
+	if f.validTerm != nil {
+		goal = Implies(*f.validTerm, goal)
+		desc += " (for inputs satisfying the contract's valid clause)"
+	}
+	f.oblige("O", fmt.Sprintf("O/%s", f.pfx+ins.Name()), goal, pos, desc)
 }
 
 // rounded models one IEEE-754 rounding of the exact real value e.
@@ -396,7 +402,15 @@ func (f *fctx) convert(ins *ssa.Convert) {
 	case isFloat(from) && isInteger(to):
 		lo, hi, _ := intRange(to)
 		t := f.define(ins.Name(), T(SInt, "(trunc %s)", x.S))
-		f.oblige("S", fmt.Sprintf("S/f2i@%s", f.insID(ins)), T(SBool, "(and (<= %s %s) (<= %s %s))", lo, t.S, t.S, hi), ins.Pos(), "float to integer conversion in range")
+		goal := T(SBool, "(and (<= %s %s) (<= %s %s))", lo, t.S, t.S, hi)
+		desc := "float to integer conversion in range (out of range is implementation-defined, not a panic)"
+		if f.validTerm != nil {
+			goal = Implies(*f.validTerm, goal)
+			desc += " (for inputs satisfying the contract's valid clause)"
+		}
+		if f.con == nil || !f.con.NoOverflow {
+			f.oblige("O", fmt.Sprintf("O/f2i@%s", f.insID(ins)), goal, ins.Pos(), desc)
+		}
 		f.setVal(ins, t)
 	case isFloat(from) && isFloat(to):
 		x.Ty = to
@@ -484,13 +498,24 @@ func (f *fctx) sliceInstr(ins *ssa.Slice) {
 		if base == nil {
 			f.fail("slice of array behind a reference")
 		}
-		if ins.Low != nil || ins.High != nil || ins.Max != nil {
+		if ins.Low != nil || ins.Max != nil {
 			f.fail("partial slice of an array")
+		}
+		n := arr.Len()
+		if ins.High != nil {
+			c, ok := ins.High.(*ssa.Const)
+			if !ok {
+				f.fail("partial slice of an array")
+			}
+			n = c.Int64()
+			if n < 0 || n > arr.Len() {
+				f.fail("slice bound out of range")
+			}
 		}
 		a := f.load(base)
 		s := f.vc.sortOf(ins.Type())
-		f.defVal(ins, Term{S: fmt.Sprintf("(mkseq %d %s)", arr.Len(), a.S), Sort: s})
-		f.constLen[f.vals[ins].S] = int(arr.Len())
+		f.defVal(ins, Term{S: fmt.Sprintf("(%s %d %s)", mkseqOf(s), n, a.S), Sort: s})
+		f.constLen[f.vals[ins].S] = int(n)
 	case *types.Slice:
 		x := f.val(ins.X)
 		lo := IntLit(0)
@@ -506,7 +531,7 @@ func (f *fctx) sliceInstr(ins *ssa.Slice) {
 		}
 		f.oblige("S", fmt.Sprintf("S/slice@%s", f.insID(ins)), T(SBool, "(and (<= 0 %s) (<= %s %s) (<= %s (seq.len %s)))", lo.S, lo.S, hi.S, hi.S, x.S), ins.Pos(), "slice bounds in range (len; cap not modelled)")
 		if lo.S == "0" {
-			f.defVal(ins, Term{S: fmt.Sprintf("(mkseq %s (seq.el %s))", hi.S, x.S), Sort: x.Sort})
+			f.defVal(ins, Term{S: fmt.Sprintf("(%s %s (seq.el %s))", mkseqOf(x.Sort), hi.S, x.S), Sort: x.Sort})
 		} else {
 			r := f.declare(ins.Name(), x.Sort)
 			f.assume(T(SBool, "(= (seq.len %s) (- %s %s))", r.S, hi.S, lo.S))
@@ -529,8 +554,8 @@ func (f *fctx) mapState(m ssa.Value) (string, Term) {
 func (f *fctx) mapUpdate(ins *ssa.MapUpdate) {
 	key, m := f.mapState(ins.Map)
 	k, v := f.val(ins.Key), f.val(ins.Value)
-	nm := T(m.Sort, "(mkmap (store (map.dom %s) %s true) (store (map.val %s) %s %s) (ite (select (map.dom %s) %s) (map.size %s) (+ (map.size %s) 1)))",
-		m.S, k.S, m.S, k.S, v.S, m.S, k.S, m.S, m.S)
+	nm := T(m.Sort, "(%s (store (map.dom %s) %s true) (store (map.val %s) %s %s) (ite (select (map.dom %s) %s) (map.size %s) (+ (map.size %s) 1)))",
+		mkmapOf(m.Sort), m.S, k.S, m.S, k.S, v.S, m.S, k.S, m.S, m.S)
 	f.cur.cells[key] = f.define("map", nm)
 }
 
